@@ -14,6 +14,7 @@ var poolReuses, poolNews int
 func resetModels(t *Task) {
 	pools = map[*value][]value{}
 	poolReuses, poolNews = 0, 0
+	ptrSerial = nil
 	resetRegexpModel()
 }
 
